@@ -28,6 +28,23 @@ def files(rng, tier):
             nodes = nodes[:-1] + [check_c12.transform(nodes[-1], rng, p_ins=0.0, p_perm=1.0, p_large=0.0, p_pad=0.0)]
             r = isogen.render(nodes)
         out.append(("movie%d" % i, bytes(r.data), False))
+    # movie header last, and one chosen table box is the very last box of the file (every container on the way holds it last):
+    # a cut inside that table is followed by nothing
+    def tail_order(node, chain):
+        if not isinstance(node, isogen.Box) or not chain:
+            return node
+        kids = [k for k in node.items]
+        last = [k for k in kids if isinstance(k, isogen.Box) and k.typ == chain[0]]
+        if not last:
+            return node
+        rest = [k for k in kids if k is not last[-1]]
+        return isogen.Box(node.typ, rest + [tail_order(last[-1], chain[1:])], node.large, node.pad)
+    for j, tbl in enumerate((b"stts", b"ctts", b"stss", b"stsc", b"stsz", b"stco", b"co64") if tier == "quick" else (b"stts", b"ctts", b"stss", b"stsc", b"stsz", b"stco", b"co64") * 3):
+        trs = [{"id": 1, "kind": "avc", "ts": 1000, "sizes": [5, 3, 0, 4, 6, 2, 7], "chunks": [1, 2, 2, 1, 1], "deltas": [10, 10, 20, 20, 5, 5, 9], "cts": [0, 3, -3, 0, 1, 0, 0],
+                "sync": [1, 4, 6], "co64": tbl == b"co64", "stsc_split": (lambda q: True) if j % 2 == 0 else None}]
+        r, _, nodes = isogen.build_movie(trs, "mdat_first")
+        nodes = nodes[:-1] + [tail_order(nodes[-1], [b"trak", b"mdia", b"minf", b"stbl", tbl])]
+        out.append(("tail_%s_%d" % (tbl.decode(), j), bytes(isogen.render(nodes).data), False))
     for i in range(2 if tier == "quick" else 12):
         tracks = [{"id": 1, "kind": "avc", "ts": 1000}, {"id": 2, "kind": "aac", "ts": 48000}][:rng.choice([1, 2])]
         frags = []
